@@ -14,6 +14,7 @@ import (
 	v1 "k8s.io/api/core/v1"
 	apiequality "k8s.io/apimachinery/pkg/api/equality"
 	metav1 "k8s.io/apimachinery/pkg/apis/meta/v1"
+	"k8s.io/apimachinery/pkg/runtime"
 
 	"verif/internal/explore"
 	"verif/internal/gen"
@@ -222,7 +223,10 @@ func init() {
 				defer wg.Done()
 				ww := world.New()
 				for j := range ch {
-					c08Template(rep, ww, j.label, j.tmpl)
+					c08Template(rep, ww, j.label, j.tmpl, false)
+					// and with the template's revision already in the history as an earlier build of the controller
+					// (or the built-in one) recorded it: the stored format must still be recognised
+					c08Template(rep, ww, j.label, j.tmpl, true)
 					mu.Lock()
 					nTemplates++
 					mu.Unlock()
@@ -296,13 +300,13 @@ func init() {
 		rep.Extra["edit_depth"] = D
 		rep.Extra["reconciles"] = g.Reconciles
 		rep.Extra["templates_from_structural_generator"] = nTemplates
-		rep.Rule = fmt.Sprintf("(A) explicit-state search from %d seeds (new set, histories of 1-3 revisions incl. a rollback, and a pre-existing revision engineered to collide on name with the one the controller is about to create, collisionCount unset/0/1/2, owned or unrelated): every edit history of depth <=%d over {template -> T1|T2|T3, replicas +-1, slot 0 add/remove, pause on/off, label edit} interleaved with reconcile and kubelet progress, deduplicated by state; every write on a ControllerRevision may additionally hit a conflict (stale or refreshed view), an InternalError or a lost response (counted as one of the edits); oracle after every successful reconcile: updateRevision names a stored revision whose data applied to the set reproduces the template (real ApplyRevision + semantic equality), a template already recorded never adds a revision and its revision is re-used and numbered above all others, non-template edits never move updateRevision, the colliding revision is never overwritten or taken as update revision. (B) a reflective generator over PodTemplateSpec (every path set alone to each variant, plus int64 fields at and beyond 2^53; thorough: all pairs in the first two levels): one new set per template, two reconciles; the revision must mirror the template and the second reconcile must add nothing.", len(seeds), D)
+		rep.Rule = fmt.Sprintf("(A) explicit-state search from %d seeds (new set, histories of 1-3 revisions incl. a rollback, and a pre-existing revision engineered to collide on name with the one the controller is about to create, collisionCount unset/0/1/2, owned or unrelated): every edit history of depth <=%d over {template -> T1|T2|T3, replicas +-1, slot 0 add/remove, pause on/off, label edit} interleaved with reconcile and kubelet progress, deduplicated by state; every write on a ControllerRevision may additionally hit a conflict (stale or refreshed view), an InternalError or a lost response (counted as one of the edits); oracle after every successful reconcile: updateRevision names a stored revision whose data applied to the set reproduces the template (real ApplyRevision + semantic equality), a template already recorded never adds a revision and its revision is re-used and numbered above all others, non-template edits never move updateRevision, the colliding revision is never overwritten or taken as update revision. (B) a reflective generator over PodTemplateSpec (every path set alone to each variant, plus int64 fields at and beyond 2^53; thorough: all pairs in the first two levels): one new set per template, two reconciles; the revision must mirror the template and the second reconcile must add nothing; and the same with the template's revision already stored as the reference encoder (the built-in controller's, i.e. any earlier build's) records it: no reconcile may add a revision.", len(seeds), D)
 		rep.Validated = g.Reconciles + 2*nTemplates
 		return rep.Finish()
 	})
 }
 
-func c08Template(rep *explore.Report, w *world.World, label string, tmpl v1.PodTemplateSpec) {
+func c08Template(rep *explore.Report, w *world.World, label string, tmpl v1.PodTemplateSpec, recorded bool) {
 	defer func() {
 		if r := recover(); r != nil {
 			if he, ok := r.(world.HarnessError); ok {
@@ -333,6 +337,23 @@ func c08Template(rep *explore.Report, w *world.World, label string, tmpl v1.PodT
 	}
 	st := world.NewState()
 	st.API.Sets["web"] = set
+	recordedName := ""
+	if recorded {
+		label += " (revision already recorded in the reference encoding)"
+		data := refPatch(builtinFrom(set))
+		zero := int32(0)
+		name, hash := refRevisionName("web", data, &zero)
+		lbl := map[string]string{"controller.kubernetes.io/hash": hash}
+		for k, v := range set.Spec.Template.Labels {
+			lbl[k] = v
+		}
+		t := true
+		st.API.Revs[name] = &appsv1.ControllerRevision{ObjectMeta: metav1.ObjectMeta{Name: name, Namespace: world.NS, UID: "uid-rev-recorded", ResourceVersion: "1", Labels: lbl,
+			OwnerReferences: []metav1.OwnerReference{{APIVersion: "apps.pingcap.com/v1", Kind: "StatefulSet", Name: "web", UID: set.UID, Controller: &t, BlockOwnerDeletion: &t}}},
+			Data: runtime.RawExtension{Raw: data}, Revision: 1}
+		set.Status.CurrentRevision, set.Status.UpdateRevision = name, name
+		recordedName = name
+	}
 	st.SyncCaches()
 	w.Lag = 0
 	w.Load(st)
@@ -347,10 +368,10 @@ func c08Template(rep *explore.Report, w *world.World, label string, tmpl v1.PodT
 		if rec.Err != nil {
 			vs = append(vs, oracle.Violation{Prop: "C08", Rule: "reconcile-error", Msg: rec.Err.Error()})
 		}
-		if i == 1 {
+		if i == 1 || recorded {
 			for _, c := range rec.Calls {
 				if c.Verb == "create" && c.Resource == "controllerrevisions" {
-					vs = append(vs, oracle.Violation{Prop: "C08", Rule: "revision-added-for-unchanged-template", Msg: "second reconcile of an unchanged template adds " + c.ID})
+					vs = append(vs, oracle.Violation{Prop: "C08", Rule: "revision-added-for-unchanged-template", Msg: fmt.Sprintf("reconcile %d of an unchanged template adds %s (history: %q)", i+1, c.ID, recordedName)})
 				}
 			}
 		}
